@@ -25,10 +25,13 @@ import (
 )
 
 type Run struct {
-	Class string            `json:"class"` // command class (part of the failure key)
-	Files map[string]string `json:"files"` // written into a fresh directory before the run
-	Argv  []string          `json:"argv"`  // arguments of the sysl binary, paths relative to that directory
-	Note  string            `json:"note,omitempty"`
+	Class    string            `json:"class"` // command class (part of the failure key)
+	Files    map[string]string `json:"files"` // written into a fresh directory before the run
+	Argv     []string          `json:"argv"`  // arguments of the sysl binary, paths relative to that directory
+	Note     string            `json:"note,omitempty"`
+	Stdin    string            `json:"stdin,omitempty"`    // fed to the process (closed at once when empty)
+	Opt      string            `json:"opt,omitempty"`      // option boundary runs: "<flag>:<kind>"
+	MustFail bool              `json:"mustfail,omitempty"` // the value cannot be honoured: exit 0 is a failure too
 	// filled by execution
 	dir string
 	cm  *cmdModel
@@ -97,7 +100,7 @@ func execRun(r *Run) Obs {
 	// starved on a busy machine: the kernel kills the spinning process with SIGXCPU after cpuLimit seconds of its
 	// own CPU time, long before the wall-clock deadline, whatever the load.
 	lim := cpuLimit
-	if strings.HasPrefix(r.Class, "import-") {
+	if strings.Contains(r.Class, "import") || strings.Contains(r.Class, "transform") {
 		lim = 4 * cpuLimit // the arr.ai based importers legitimately use several seconds
 	} else if hangCount(r.Class, 0) >= 3 {
 		lim = 2 // this command class has already spun three times: the rest of the class is cut short
@@ -109,6 +112,7 @@ func execRun(r *Run) Obs {
 	cmd.Env = append(os.Environ(), "SYSL_PLANTUML=http://localhost:1/plantuml", "GOTRACEBACK=single")
 	var so, se bytes.Buffer
 	cmd.Stdout, cmd.Stderr = &so, &se
+	cmd.Stdin = strings.NewReader(r.Stdin)
 	cmd.WaitDelay = 2 * time.Second
 	t0 := time.Now()
 	err := cmd.Run()
@@ -126,8 +130,16 @@ func execRun(r *Run) Obs {
 		if ee, ok := err.(*exec.ExitError); ok {
 			o.RC = ee.ExitCode()
 			if ws, ok := ee.Sys().(syscall.WaitStatus); ok && ws.Signaled() && (ws.Signal() == syscall.SIGXCPU || ws.Signal() == syscall.SIGKILL) && ctx.Err() == nil {
-				o.CPUHang = true
-				hangCount(r.Class, 1)
+				// killed for its CPU time only if it really used it: a SIGKILL with little CPU time behind it is the
+				// kernel's out-of-memory killer at work on a machine that other jobs have filled up - that run says nothing
+				// about sysl and is repeated alone like a missed deadline
+				used := ee.ProcessState.UserTime() + ee.ProcessState.SystemTime()
+				if ws.Signal() == syscall.SIGXCPU || used >= time.Duration(lim-1)*time.Second {
+					o.CPUHang = true
+					hangCount(r.Class, 1)
+					return o
+				}
+				o.Timeout = true
 				return o
 			}
 		} else {
@@ -236,6 +248,9 @@ func judge(c *common.Ctx, r *Run, o Obs) string {
 		return "crash"
 	case o.RC == 0:
 		c.Hist("outcome:ok")
+		if r.MustFail {
+			c.Fail("accepted:"+r.Class+":"+r.Opt, fmt.Sprintf("`sysl %s` (%s) exits 0 although the value cannot be honoured", strings.Join(r.Argv, " "), r.Note), r)
+		}
 		if o.OutFiles > 0 || o.Stdout > 0 {
 			c.Hist("ok-with-output")
 		}
@@ -253,6 +268,9 @@ func judge(c *common.Ctx, r *Run, o Obs) string {
 // ---------------------------------------------------------------- the command matrix for one model
 func matrix(rng *common.Rng, m *SModel, text string, thorough bool) []*Run {
 	files := map[string]string{"m.sysl": text}
+	for n, c := range extraFiles(m) {
+		files[n] = c
+	}
 	var runs []*Run
 	k := 0
 	add := func(class string, argv ...string) *Run {
@@ -376,6 +394,12 @@ func matrix(rng *common.Rng, m *SModel, text string, thorough bool) []*Run {
 		addx("generate-db-scripts", "generate-db-scripts", "-o", "out/", "-a", "Ghost0", "-d", "postgres", "-t", "T", "m.sysl")
 		addx("generate-db-scripts", "generate-db-scripts", "-o", "out/", "-a", apps[0], "-d", "mysql", "-t", "T", "m.sysl")
 	}
+	extraMatrix(rng, m, add, func(class string, argv ...string) *Run {
+		if thorough || rng.Intn(5) == 0 {
+			return add(class, argv...)
+		}
+		return nil
+	})
 	return runs
 }
 
@@ -460,7 +484,7 @@ func main() {
 			deadline = x
 		}
 	}
-	workers := 8
+	workers := 10
 	c.Res.Rule = "a case = one (model, command line) subprocess run of the sysl binary built from the working tree; models are generated untidy-but-valid Sysl texts that `sysl pb` compiles with exit 0 (fixed shape corpus + random), foreign specs for import are generated; non-trivial = the model carries at least one untidiness (dangling call target/endpoint, dangling/self/cyclic type reference, table referencing a missing table/column or itself, empty app, call cycle) or the run ends in an error; distinct by (shape or model digest, command line)"
 
 	if c.Replay != "" {
@@ -482,7 +506,7 @@ func main() {
 		return
 	}
 
-	nShapeRounds, nRandom, nTidy, nImport, nDelta := 1, 12, 2, 1, 8
+	nShapeRounds, nRandom, nTidy, nImport, nDelta := 1, 9, 2, 1, 4
 	if c.Thorough() {
 		nRandom, nTidy, nImport, nDelta = 70, 10, 3, 40
 	}
@@ -490,13 +514,29 @@ func main() {
 		nRandom *= 3
 	}
 	_ = nShapeRounds
+	nDense, nDeltaGen := 3, 6
+	if c.Thorough() {
+		nDense, nDeltaGen = 24, 40
+	}
+	if c.Search {
+		nDense *= 3
+		nDeltaGen *= 3
+	}
 	var models []SModel
 	models = append(models, shapeCorpus()...)
+	models = append(models, denseShapes()...)
+	for i := 0; i < nDense; i++ {
+		models = append(models, genDense(c.Rng.Fork()))
+	}
 	for i := 0; i < nRandom; i++ {
 		models = append(models, genModel(c.Rng.Fork(), genCfg{}))
 	}
 	for i := 0; i < nTidy; i++ {
 		models = append(models, genModel(c.Rng.Fork(), genCfg{tidy: true}))
+	}
+	onlyOpt := os.Getenv("VERIF_C20_ONLY") == "opt" // development aid: the full option matrix alone
+	if onlyOpt {
+		models, nDeltaGen, nDelta, nImport = models[:1], 0, 0, 0
 	}
 	cases := newCaseWriter(c)
 	var compiled []int
@@ -538,6 +578,9 @@ func main() {
 		}
 		defer os.RemoveAll(dir)
 		os.WriteFile(filepath.Join(dir, "m.sysl"), []byte(texts[i]), 0o644)
+		for n, c := range extraFiles(&models[i]) {
+			os.WriteFile(filepath.Join(dir, n), []byte(c), 0o644)
+		}
 		for _, r := range rs {
 			r.dir = dir
 		}
@@ -549,6 +592,37 @@ func main() {
 		a := compiled[c.Rng.Intn(len(compiled))]
 		b := compiled[c.Rng.Intn(len(compiled))]
 		all = append(all, deltaRuns(&models[a], &models[b], texts[a], texts[b])...)
+	}
+	// generated version pairs of one application: every column type kind added / removed / retyped
+	pairs := []deltaPair{deltaAllKinds()}
+	for k := 0; k < nDeltaGen; k++ {
+		pairs = append(pairs, genDeltaPair(c.Rng.Fork()))
+	}
+	pairRuns := make([][]*Run, len(pairs))
+	for k, p := range pairs {
+		dir, err := os.MkdirTemp("", "c20d")
+		if err != nil {
+			panic(err)
+		}
+		defer os.RemoveAll(dir)
+		os.WriteFile(filepath.Join(dir, "old.sysl"), []byte(p.old), 0o644)
+		os.WriteFile(filepath.Join(dir, "new.sysl"), []byte(p.new), 0o644)
+		pairRuns[k] = deltaPairRuns(p, k)
+		for _, r := range pairRuns[k] {
+			r.dir = dir
+		}
+		c.Hist("shape:" + p.shape)
+		all = append(all, pairRuns[k]...)
+	}
+	// every flag of every command with boundary values
+	all = append(all, optionRuns(c.Rng.Fork(), c.Thorough() || onlyOpt)...)
+	// commands without a model file
+	{
+		var ts []string
+		for _, i := range compiled {
+			ts = append(ts, texts[i])
+		}
+		all = append(all, standaloneRuns(ts)...)
 	}
 	// imports
 	for k := 0; k < nImport; k++ {
@@ -575,6 +649,23 @@ func main() {
 	// correspondence cases
 	for _, i := range compiled {
 		cases.addModel(&models[i], texts[i], perModel[i], byRun)
+	}
+	for k, p := range pairs {
+		// both versions must compile (the generator's own gate) and a pair whose delta exits 0 must have written the script
+		rs := pairRuns[k]
+		if o0, o1 := byRun[rs[0]], byRun[rs[1]]; o0.RC != 0 || o1.RC != 0 {
+			c.Hist("generator:delta-version-rejected-by-compiler")
+			if len(c.Res.Notes) < 8 {
+				c.Res.Notes = append(c.Res.Notes, "rejected delta version ("+p.shape+"): "+firstLine(o0.Stderr+o1.Stderr, "msg="))
+			}
+			continue
+		}
+		for _, r := range rs[2:] {
+			if o := byRun[r]; o.RC == 0 && !o.Crash && o.OutFiles == 0 {
+				c.Fail("no-output:"+r.Class, fmt.Sprintf("`sysl %s` on %s exits 0 without writing the script of an application that both versions define", strings.Join(r.Argv, " "), r.Note), r)
+			}
+		}
+		cases.addDelta(p, rs, byRun)
 	}
 	cases.close()
 	if len(compiled) > 0 {
